@@ -526,8 +526,8 @@ theorem C20_factory_frame (k : FKind) (sp : Spec) (msg : Option FMsg) (s s' : St
   | none => exact hm
   | some m => obtain ⟨p, hp, _, hs'⟩ := hm; exact ⟨p, hp, hs'⟩
 
-/-- a parameter for which nothing was supplied keeps its value (all four factories; shown for every scalar field
-and for the code-id list when neither additions nor removals are supplied and it has no adjacent repeats) -/
+/-- a *scalar* parameter for which nothing was supplied keeps its value (all four factories, all twelve scalar
+fields; the code-id list is treated separately below because the literal clause is FALSE for it) -/
 theorem C20_factory_unsupplied_kept (k : FKind) (p : FParams) (m : FMsg) :
     (m.codeId = none → (applied k p m).codeId = p.codeId) ∧
     (m.frozen = none → (applied k p m).frozen = p.frozen) ∧
@@ -540,9 +540,116 @@ theorem C20_factory_unsupplied_kept (k : FKind) (p : FParams) (m : FMsg) :
     (m.airdropPrice = none → (applied k p m).airdropPrice = p.airdropPrice) ∧
     (m.airdropBps = none → (applied k p m).airdropBps = p.airdropBps) ∧
     (m.shuffleFee = none → (applied k p m).shuffleFee = p.shuffleFee) ∧
-    (m.devFeeAddr = none → (applied k p m).devFeeAddr = p.devFeeAddr) ∧
-    (m.addIds = none → m.rmIds = none → dedupAdj p.ids = p.ids → (applied k p m).ids = p.ids) := by
-  cases k <;> simp [applied, updIds] <;> (try intros) <;> simp_all
+    (m.devFeeAddr = none → (applied k p m).devFeeAddr = p.devFeeAddr) := by
+  cases k <;> simp [applied] <;> (try intros) <;> simp_all
+
+/-! ### The code-id list: the literal clause is FALSE on the unchanged code
+
+FULL STATEMENT (what "every configuration … value that could be queried before is unchanged, apart from parameters
+explicitly supplied with a factory migration" says for `allowed_sg721_code_ids`, queried by `Params {}` and
+`AllowedCollectionCodeIds {}`):
+
+    theorem C20_factory_unsupplied_ids (k : FKind) (p : FParams) (m : FMsg) :
+        m.addIds = none → m.rmIds = none → (applied k p m).ids = p.ids
+
+This is NOT provable: `base_factory::update_params` (and token-merge-factory's `update_base_params`) run
+`params.allowed_sg721_code_ids.dedup()` on EVERY supplied message, also when neither `add_sg721_code_ids` nor
+`rm_sg721_code_ids` is present. A stored list with adjacent repeats is compacted by a migration whose message
+supplies no ids (or nothing at all). Such lists are reachable in two ways: `instantiate` stores the list as given
+(`[5,5,7]`), and `update_params` itself produces them, because the removals run AFTER the dedup (`[1,2,1]` with
+`rm = [2]` becomes `[1,1]`: `C20_factory_ids_repeats_reachable`; seen in generated runs).
+Proved instead: the exact result (`…_ids_exact`), the clause under "no adjacent repeats" (`…_ids_partial`), that the
+deviation happens at most once (`C20_factory_ids_compaction_once`), that the *set* of ids is kept
+(`C20_factory_ids_set_kept`), and the counter-example on a complete migration (`…_ids_counterexample`; replayed on
+the real contracts by `corpus/C20/ids-compacted-without-ids.json`). -/
+
+/-- "no two neighbours are equal" — the lists `Vec::dedup` leaves alone -/
+def noAdjRepeat : List Nat → Bool
+  | [] => true
+  | [_] => true
+  | a :: b :: t => a != b && noAdjRepeat (b :: t)
+
+theorem dedupAdj_head (a : Nat) (t : List Nat) : ∃ r, dedupAdj (a :: t) = a :: r := by
+  induction t generalizing a with
+  | nil => exact ⟨[], rfl⟩
+  | cons b t ih =>
+    by_cases h : a = b
+    · subst h; simp only [dedupAdj, if_true]; exact ih a
+    · simp only [dedupAdj, if_neg h]; exact ⟨_, rfl⟩
+
+theorem dedupAdj_of_noAdjRepeat (l : List Nat) (h : noAdjRepeat l = true) : dedupAdj l = l := by
+  induction l with
+  | nil => rfl
+  | cons a t ih =>
+    cases t with
+    | nil => rfl
+    | cons b t' =>
+      simp only [noAdjRepeat, Bool.and_eq_true, bne_iff_ne, ne_eq] at h
+      simp only [dedupAdj, if_neg h.1, ih h.2]
+
+theorem noAdjRepeat_dedupAdj (l : List Nat) : noAdjRepeat (dedupAdj l) = true := by
+  induction l with
+  | nil => rfl
+  | cons a t ih =>
+    cases t with
+    | nil => rfl
+    | cons b t' =>
+      by_cases h : a = b
+      · subst h; simp only [dedupAdj, if_true]; exact ih
+      · simp only [dedupAdj, if_neg h]
+        obtain ⟨r, hr⟩ := dedupAdj_head b t'
+        rw [hr] at ih ⊢
+        simp only [noAdjRepeat, Bool.and_eq_true, bne_iff_ne, ne_eq]
+        exact ⟨h, ih⟩
+
+/-- the exact value of the code-id list after a message that supplies no ids: the stored list with adjacent repeats
+removed (all four factories) -/
+theorem C20_factory_unsupplied_ids_exact (k : FKind) (p : FParams) (m : FMsg) (h1 : m.addIds = none) (h2 : m.rmIds = none) :
+    (applied k p m).ids = dedupAdj p.ids := by
+  cases k <;> simp [applied, updIds, h1, h2]
+
+/-- PARTIAL (extra hypothesis: the stored list has no adjacent repeats): the unsupplied code-id list keeps its value -/
+theorem C20_factory_unsupplied_ids_partial (k : FKind) (p : FParams) (m : FMsg) (h1 : m.addIds = none) (h2 : m.rmIds = none)
+    (hno : noAdjRepeat p.ids = true) : (applied k p m).ids = p.ids := by
+  rw [C20_factory_unsupplied_ids_exact k p m h1 h2, dedupAdj_of_noAdjRepeat p.ids hno]
+
+/-- adjacent repeats are not only an `instantiate` artefact: an update that removes the id standing between two equal
+ids leaves them adjacent (removal runs after `dedup`) -/
+theorem C20_factory_ids_repeats_reachable :
+    updIds [1, 2, 1] none (some [2]) = [1, 1] ∧ noAdjRepeat [1, 2, 1] = true ∧ noAdjRepeat (updIds [1, 2, 1] none (some [2])) = false := by
+  decide
+
+/-- the deviation happens at most once: after one such migration the list has no adjacent repeats, so every further
+migration that supplies no ids leaves it exactly as it is -/
+theorem C20_factory_ids_compaction_once (k k' : FKind) (p : FParams) (m m' : FMsg)
+    (h1 : m.addIds = none) (h2 : m.rmIds = none) (h1' : m'.addIds = none) (h2' : m'.rmIds = none) :
+    (applied k' (applied k p m) m').ids = (applied k p m).ids := by
+  apply C20_factory_unsupplied_ids_partial k' _ m' h1' h2'
+  rw [C20_factory_unsupplied_ids_exact k p m h1 h2]
+  exact noAdjRepeat_dedupAdj p.ids
+
+/-- the factory state of the counter-example: recorded at 3.16.0 under the factory's own name (id 0), allowed code
+ids `[5, 5, 7]` as `instantiate` stored them -/
+def cexParams : FParams :=
+  { codeId := 1, ids := [5, 5, 7], frozen := false, creationFee := ⟨NATIVE, 1⟩, minMintPrice := ⟨NATIVE, 0⟩, mintFeeBps := 0,
+    offset := 0, maxTokenLimit := 0, maxPerAddr := 0, airdropPrice := ⟨NATIVE, 0⟩, airdropBps := 0,
+    shuffleFee := ⟨NATIVE, 0⟩, devFeeAddr := 0 }
+def cexState : St :=
+  { cw2 := some ⟨0, [51, 46, 49, 54, 46, 48]⟩, lastDiscount := none, frozenMeta := none, enableUpd := none,
+    royaltyAt := none, legacyMinter := none, ownership := none, params := some cexParams, other := [] }
+
+/-- COUNTER-EXAMPLE to the literal clause, on a complete migration of each of the four factories: same name, same
+version (3.16.0 → 3.16.0), an update message in which EVERY field is absent — the migration is accepted and the
+stored `allowed_sg721_code_ids` goes from `[5, 5, 7]` to `[5, 7]` although nothing was supplied. -/
+theorem C20_factory_unsupplied_ids_counterexample (k : FKind) :
+    ∃ s' p', migrate { kind := .factory k, own := 0, code := ⟨3, 16, 0⟩ } 0 (some {}) cexState = .ok s' ∧
+      s'.params = some p' ∧ cexParams.ids = [5, 5, 7] ∧ p'.ids = [5, 7] ∧ p'.ids ≠ cexParams.ids := by
+  refine ⟨{ cexState with params := some (applied k cexParams {}) }, applied k cexParams {}, ?_, rfl, rfl, ?_, ?_⟩
+  · simp only [migrate]
+    exact (migrateFactory_ok_iff k _ (some {}) cexState _).mpr
+      ⟨⟨0, [51, 46, 49, 54, 46, 48]⟩, ⟨3, 16, 0⟩, rfl, by decide, ⟨rfl, le_refl _⟩, cexParams, rfl, by cases k <;> rfl, rfl⟩
+  · cases k <;> decide
+  · cases k <;> decide
 
 theorem mem_dedupAdj (x : Nat) (l : List Nat) : x ∈ dedupAdj l ↔ x ∈ l := by
   induction l with
@@ -726,6 +833,135 @@ theorem C20_identity (sp : Spec) (hk : InScope sp.kind) (now : Nat) (msg : Optio
         | metaOnchain => simp [hkind, InScope] at hk
         | nt => simp [hkind, InScope] at hk
         | base721 => simp [hkind, InScope] at hk
+
+/-! ## 7a. Frame conditions over histories (inductions over the op list) -/
+
+theorem run_cons (s : St) (o : MigOp) (rest : List MigOp) :
+    run s (o :: rest) = run (migrate' o.sp o.now o.msg s) rest := by
+  simp [run]
+
+/-- everything outside the mechanism items survives any history of migrations (any kinds, accepted or refused) -/
+theorem C20_history_other_untouched (ops : List MigOp) (s : St) : (run s ops).other = s.other := by
+  induction ops generalizing s with
+  | nil => rfl
+  | cons o rest ih => rw [run_cons, ih, C20_other_untouched]
+
+/-- one step, any in-scope kind: the cw2 record afterwards is the old one or the code's own record -/
+theorem C20_step_record (sp : Spec) (hk : InScope sp.kind) (now : Nat) (msg : Option FMsg) (s : St) :
+    (migrate' sp now msg s).cw2 = s.cw2 ∨ (migrate' sp now msg s).cw2 = some (codeRecord sp) := by
+  unfold migrate'
+  cases h : migrate sp now msg s with
+  | error e => exact .inl rfl
+  | ok s' =>
+    simp only
+    by_cases hf : ∃ k, sp.kind = .factory k
+    · obtain ⟨k, hkind⟩ := hf
+      simp only [migrate, hkind] at h
+      exact .inl (C20_factory_version_untouched k sp msg s s' h)
+    · have hnf : ∀ k, sp.kind ≠ .factory k := fun k hk' => hf ⟨k, hk'⟩
+      rcases C20_record_after sp hk hnf now msg s s' h with h1 | ⟨h1, _⟩
+      · exact .inr h1
+      · exact .inl (by rw [h1])
+
+/-- one step, any in-scope kind: the two sg721-updatable flags (`frozen_token_metadata`, `enable_updatable`) keep
+their values unless the stored name is one of the code's sg721-base names (the documented one-time initialisation) -/
+theorem C20_step_flags_kept (sp : Spec) (hk : InScope sp.kind) (now : Nat) (msg : Option FMsg) (s : St)
+    (hb : ∀ c, s.cw2 = some c → c.name ∉ sp.baseNames) :
+    (migrate' sp now msg s).frozenMeta = s.frozenMeta ∧ (migrate' sp now msg s).enableUpd = s.enableUpd := by
+  unfold migrate'
+  cases h : migrate sp now msg s with
+  | error e => exact ⟨rfl, rfl⟩
+  | ok s' =>
+    simp only
+    cases hkind : sp.kind with
+    | factory k =>
+      simp only [migrate, hkind] at h
+      have hf := C20_factory_frame k sp msg s s' h
+      cases msg with
+      | none => simp at hf; subst hf; exact ⟨rfl, rfl⟩
+      | some m => obtain ⟨p, _, hs'⟩ := hf; subst hs'; exact ⟨rfl, rfl⟩
+    | plain =>
+      simp only [migrate, hkind] at h
+      have hf := C20_plain_frame sp s s' h
+      exact ⟨by rw [hf], by rw [hf]⟩
+    | vending =>
+      simp only [migrate, hkind] at h
+      have hf := (C20_vending_frame sp now s s' h).1
+      exact ⟨by rw [hf], by rw [hf]⟩
+    | updatable =>
+      simp only [migrate, hkind] at h
+      obtain ⟨c, v, hc, _, _, h2, h3, _⟩ := C20_updatable_frame sp now s s' h
+      have := hb c hc
+      exact ⟨by rw [h2, if_neg this], by rw [h3, if_neg this]⟩
+    | metaOnchain => simp [hkind, InScope] at hk
+    | nt => simp [hkind, InScope] at hk
+    | base721 => simp [hkind, InScope] at hk
+
+/-- **a metadata freeze survives every history of upgrades**: let `B` be the sg721-base names. Start from a contract
+whose recorded name is not a base name (e.g. a collection that already is an sg721-updatable, with
+`frozen_token_metadata = true`), and run ANY list of in-scope migrations (any code versions, block times, accepted or
+refused) by codes whose own name is not a base name and whose flag-initialising names are base names: both flags are
+exactly what they were. (The accepted path of sg721-updatable → sg721-updatable is covered, not only the refusal.) -/
+theorem C20_history_flags_kept (B : List NameId) (ops : List MigOp)
+    (hops : ∀ o ∈ ops, InScope o.sp.kind ∧ o.sp.own ∉ B ∧ ∀ n ∈ o.sp.baseNames, n ∈ B)
+    (s : St) (hname : ∀ c, s.cw2 = some c → c.name ∉ B) :
+    (run s ops).frozenMeta = s.frozenMeta ∧ (run s ops).enableUpd = s.enableUpd := by
+  induction ops generalizing s with
+  | nil => exact ⟨rfl, rfl⟩
+  | cons o rest ih =>
+    obtain ⟨hk, hown, hbase⟩ := hops o List.mem_cons_self
+    have hstep := C20_step_flags_kept o.sp hk o.now o.msg s (fun c hc hin => hname c hc (hbase _ hin))
+    have hname' : ∀ c, (migrate' o.sp o.now o.msg s).cw2 = some c → c.name ∉ B := by
+      intro c hc
+      rcases C20_step_record o.sp hk o.now o.msg s with h1 | h1
+      · exact hname c (by rw [← h1, hc])
+      · rw [h1] at hc; cases hc; exact hown
+    obtain ⟨i1, i2⟩ := ih (fun o' ho' => hops o' (List.mem_cons_of_mem _ ho')) _ hname'
+    rw [run_cons]
+    exact ⟨by rw [i1, hstep.1], by rw [i2, hstep.2]⟩
+
+/-- one step, any in-scope kind: the factory parameters change only in a factory migration that carries a message -/
+theorem C20_step_params_kept (sp : Spec) (hk : InScope sp.kind) (now : Nat) (msg : Option FMsg) (s : St)
+    (h : msg = none ∨ ∀ k, sp.kind ≠ .factory k) : (migrate' sp now msg s).params = s.params := by
+  unfold migrate'
+  cases hm : migrate sp now msg s with
+  | error e => rfl
+  | ok s' =>
+    simp only
+    cases hkind : sp.kind with
+    | factory k =>
+      rcases h with h | h
+      · subst h
+        simp only [migrate, hkind] at hm
+        have hf := C20_factory_frame k sp none s s' hm
+        simp at hf; rw [hf]
+      · exact absurd hkind (h k)
+    | plain =>
+      simp only [migrate, hkind] at hm
+      have hf := C20_plain_frame sp s s' hm
+      rw [hf]
+    | vending =>
+      simp only [migrate, hkind] at hm
+      have hf := (C20_vending_frame sp now s s' hm).1
+      rw [hf]
+    | updatable =>
+      simp only [migrate, hkind] at hm
+      obtain ⟨c, v, _, _, _, _, _, _, _, _, _, h8, _⟩ := C20_updatable_frame sp now s s' hm
+      exact h8
+    | metaOnchain => simp [hkind, InScope] at hk
+    | nt => simp [hkind, InScope] at hk
+    | base721 => simp [hkind, InScope] at hk
+
+/-- over any history of in-scope migrations none of which is a message-carrying factory migration, the factory
+parameters are exactly what they were -/
+theorem C20_history_params_kept (ops : List MigOp)
+    (hops : ∀ o ∈ ops, InScope o.sp.kind ∧ (o.msg = none ∨ ∀ k, o.sp.kind ≠ .factory k)) (s : St) :
+    (run s ops).params = s.params := by
+  induction ops generalizing s with
+  | nil => rfl
+  | cons o rest ih =>
+    obtain ⟨hk, hm⟩ := hops o List.mem_cons_self
+    rw [run_cons, ih (fun o' ho' => hops o' (List.mem_cons_of_mem _ ho')), C20_step_params_kept o.sp hk o.now o.msg s hm]
 
 /-- the crate versions of the 18 in-scope contracts, as regenerated from /repo's `Cargo.toml`s on every run, are
 representable (`Fits`) — the hypothesis of `C20_version_after` / `C20_monotone` holds for the code that exists —
